@@ -16,7 +16,7 @@ Definition hB1 : Blocks :=
      b_lb := Some [Fin (qmk (-1) 4); Fin (qmk (-1) 2)]; b_ub := None |}.
 Definition hops : list Op := [OSetup ex_settings 2 0 0 hB0; OUpdate hB1 true; OSolve].
 Definition hfault : nat -> bool := fun _ => false.
-Definition hrun (ident : bool) (j : F) : list Obs * option err := run consts ident 16 hfault j None hops.
+Definition hrun (ident : bool) (j : F) : list Obs * option err := run consts ident false 16 hfault j None hops.
 
 Definition hj1 : F := 0.
 Definition hj2 : F := qmk 7 2.
@@ -37,16 +37,16 @@ Proof.
 Qed.
 
 (* the regularisation stored in the KKT object is positive when update() is called *)
-Example hops_delta_ok_ident : delta_ok consts true 16 hfault hj1 None hops.
+Example hops_delta_ok_ident : delta_ok consts true false 16 hfault hj1 None hops.
 Proof. vm_compute. repeat split. Qed.
-Example hops_delta_ok_ruiz : delta_ok consts false 16 hfault hj1 None hops.
+Example hops_delta_ok_ruiz : delta_ok consts false false 16 hfault hj1 None hops.
 Proof. vm_compute. repeat split. Qed.
 
 (* the theorem applies: both preconditioners *)
 Example history_junk_independent_ident : hrun true hj1 = hrun true hj2.
-Proof. exact (junk_independence_fresh consts true 16 hfault sane_consts_consts hj1 hj2 hops hops_ok hops_delta_ok_ident). Qed.
+Proof. exact (junk_independence_fresh consts true false 16 hfault sane_consts_consts hj1 hj2 hops hops_ok hops_delta_ok_ident). Qed.
 Example history_junk_independent_ruiz : hrun false hj1 = hrun false hj2.
-Proof. exact (junk_independence_fresh consts false 16 hfault sane_consts_consts hj1 hj2 hops hops_ok hops_delta_ok_ruiz). Qed.
+Proof. exact (junk_independence_fresh consts false false 16 hfault sane_consts_consts hj1 hj2 hops hops_ok hops_delta_ok_ruiz). Qed.
 
 (* ... and the history is a real one: three calls return, the last one SOLVED with both lower bounds active in the
    result (z_lb > 0 at both coordinates), in particular the slot that became active through update() *)
@@ -67,7 +67,7 @@ Proof. vm_compute. reflexivity. Qed.
 
 (* ---- the never-written slots ARE read by update(): the KKT matrix after setup(); update() depends on junk ---- *)
 Definition state_after (ident : bool) (j : F) (ops : list Op) : option Solver :=
-  fold_left (fun st op => match step consts ident 16 hfault j st op with Ok (st', _) => st' | Err _ => st end) ops None.
+  fold_left (fun st op => match step consts ident false 16 hfault j st op with Ok (st', _) => st' | Err _ => st end) ops None.
 
 Definition hmat (j : F) : list (list Q) :=
   match state_after true j [OSetup ex_settings 2 0 0 hB0; OUpdate hB1 true] with
@@ -87,22 +87,22 @@ Definition dummy_sv : Solver :=
      sv_kkt_init_state := false; sv_setup_done := false; sv_refine := false; sv_info := empty_info ex_settings;
      sv_out := zero_out 0 0 0; sv_calls := 0 |}.
 Definition get_sv (r : res Solver) : Solver := match r with Ok s => s | Err _ => dummy_sv end.
-Definition ha : Solver := Eval vm_compute in get_sv (setup consts true hj1 ex_settings 2 0 0 hB0).
-Definition hb : Solver := Eval vm_compute in get_sv (setup consts true hj2 ex_settings 2 0 0 hB0).
-Definition ha' : Solver := Eval vm_compute in get_sv (update consts ha hB1 true).
-Definition hb' : Solver := Eval vm_compute in get_sv (update consts hb hB1 true).
-Lemma ha_eq : setup consts true hj1 ex_settings 2 0 0 hB0 = Ok ha. Proof. vm_compute. reflexivity. Qed.
-Lemma hb_eq : setup consts true hj2 ex_settings 2 0 0 hB0 = Ok hb. Proof. vm_compute. reflexivity. Qed.
-Lemma ha'_eq : update consts ha hB1 true = Ok ha'. Proof. vm_compute. reflexivity. Qed.
-Lemma hb'_eq : update consts hb hB1 true = Ok hb'. Proof. vm_compute. reflexivity. Qed.
+Definition ha : Solver := Eval vm_compute in get_sv (setup consts true false hj1 ex_settings 2 0 0 hB0).
+Definition hb : Solver := Eval vm_compute in get_sv (setup consts true false hj2 ex_settings 2 0 0 hB0).
+Definition ha' : Solver := Eval vm_compute in get_sv (update consts false ha hB1 true).
+Definition hb' : Solver := Eval vm_compute in get_sv (update consts false hb hB1 true).
+Lemma ha_eq : setup consts true false hj1 ex_settings 2 0 0 hB0 = Ok ha. Proof. vm_compute. reflexivity. Qed.
+Lemma hb_eq : setup consts true false hj2 ex_settings 2 0 0 hB0 = Ok hb. Proof. vm_compute. reflexivity. Qed.
+Lemma ha'_eq : update consts false ha hB1 true = Ok ha'. Proof. vm_compute. reflexivity. Qed.
+Lemma hb'_eq : update consts false hb hB1 true = Ok hb'. Proof. vm_compute. reflexivity. Qed.
 
 Theorem update_strong_agreement_refuted :
-  ~ (forall K a b B reuse a' b', sv_agree_strong a b -> update K a B reuse = Ok a' -> update K b B reuse = Ok b' ->
+  ~ (forall K sq a b B reuse a' b', sv_agree_strong a b -> update K sq a B reuse = Ok a' -> update K sq b B reuse = Ok b' ->
        sv_agree_strong a' b').
 Proof.
   intros H.
-  pose proof (setup_junk_indep consts true hj1 hj2 ex_settings 2 0 0 hB0) as Hs. rewrite ha_eq, hb_eq in Hs.
-  specialize (H consts ha hb hB1 true ha' hb' Hs ha'_eq hb'_eq). destruct H as [_ [_ Hm]].
+  pose proof (setup_junk_indep consts true false hj1 hj2 ex_settings 2 0 0 hB0) as Hs. rewrite ha_eq, hb_eq in Hs.
+  specialize (H consts false ha hb hB1 true ha' hb' Hs ha'_eq hb'_eq). destruct H as [_ [_ Hm]].
   vm_compute in Hm. discriminate Hm.
 Qed.
 
@@ -131,32 +131,32 @@ Proof. vm_compute. reflexivity. Qed.
 
 (* delta = -4.  junk = 2: the never-written slot gives 2*2 + delta = 0; junk = 3: 3*3 + delta = 5 *)
 Example update_status_depends_on_junk :
-  map (fun o => fst (fst o)) (fst (run consts true 16 hfault (qmk 2 1) None bad_ops)) = [None] /\
-  snd (run consts true 16 hfault (qmk 2 1) None bad_ops) = Some DivZero /\
-  map (fun o => fst (fst o)) (fst (run consts true 16 hfault (qmk 3 1) None bad_ops)) = [None; None] /\
-  snd (run consts true 16 hfault (qmk 3 1) None bad_ops) = None.
+  map (fun o => fst (fst o)) (fst (run consts true false 16 hfault (qmk 2 1) None bad_ops)) = [None] /\
+  snd (run consts true false 16 hfault (qmk 2 1) None bad_ops) = Some DivZero /\
+  map (fun o => fst (fst o)) (fst (run consts true false 16 hfault (qmk 3 1) None bad_ops)) = [None; None] /\
+  snd (run consts true false 16 hfault (qmk 3 1) None bad_ops) = None.
 Proof. repeat split; vm_compute; reflexivity. Qed.
 
 (* T1 without the hypothesis on the regularisation is false in the model *)
 Theorem junk_independence_unconditional_refuted :
-  ~ (forall K ident cp_bits fault j1 j2 ops, sane_consts K -> ops_ok None ops ->
-       run K ident cp_bits fault j1 None ops = run K ident cp_bits fault j2 None ops).
+  ~ (forall K ident sparse_pc cp_bits fault j1 j2 ops, sane_consts K -> ops_ok None ops ->
+       run K ident sparse_pc cp_bits fault j1 None ops = run K ident sparse_pc cp_bits fault j2 None ops).
 Proof.
   intros H.
   assert (HO : ops_ok None bad_ops).
   { cbn [ops_ok bad_ops]. destruct hops_ok as (A & B & _). split; [exact A|split; [exact B|exact I]]. }
-  specialize (H consts true 16%Z hfault (qmk 2 1) (qmk 3 1) bad_ops sane_consts_consts HO).
+  specialize (H consts true false 16%Z hfault (qmk 2 1) (qmk 3 1) bad_ops sane_consts_consts HO).
   apply (f_equal snd) in H. destruct update_status_depends_on_junk as (_ & E1 & _ & E2).
   rewrite E1, E2 in H. discriminate H.
 Qed.
 
 (* ... and the weaker theorem still applies to that history: the observations agree as far as both runs go *)
 Example bad_history_prefix_compatible :
-  prefix_compat (fst (run consts true 16 hfault (qmk 2 1) None bad_ops)) (fst (run consts true 16 hfault (qmk 3 1) None bad_ops)).
+  prefix_compat (fst (run consts true false 16 hfault (qmk 2 1) None bad_ops)) (fst (run consts true false 16 hfault (qmk 3 1) None bad_ops)).
 Proof.
   assert (HO : ops_ok None bad_ops).
   { cbn [ops_ok bad_ops]. destruct hops_ok as (A & B & _). split; [exact A|split; [exact B|exact I]]. }
-  exact (proj1 (junk_independence_partial consts true 16 hfault sane_consts_consts (qmk 2 1) (qmk 3 1) bad_ops
+  exact (proj1 (junk_independence_partial consts true false 16 hfault sane_consts_consts (qmk 2 1) (qmk 3 1) bad_ops
                   None None None I I I HO)).
 Qed.
 
@@ -173,7 +173,7 @@ Proof. vm_compute. split; [reflexivity|eexists; repeat split]. Qed.
 
 (* ---- interleaving of two instances with different junk, preconditioner and rounding ---- *)
 Example interleaving_example :
-  let stp := step_tot consts (fun i => Nat.eqb i 0) (fun i => if Nat.eqb i 0 then hj1 else hj2) (fun _ => 16%Z)
+  let stp := step_tot consts (fun i => Nat.eqb i 0) (fun _ => false) (fun i => if Nat.eqb i 0 then hj1 else hj2) (fun _ => 16%Z)
                       (fun _ => hfault) in
   let l := [(0%nat, OSetup ex_settings 2 0 0 hB0); (1%nat, OSetup ex_settings 2 0 0 hB0); (1%nat, OUpdate hB1 true);
             (0%nat, OUpdate hB1 true); (1%nat, OSolve); (0%nat, OSolve)] in
@@ -190,7 +190,13 @@ Example hops_valid : ops_valid hops.
 Proof. cbn. split; [exact ex_settings_ok|exact I]. Qed.
 Example history_junk_independent_by_settings : hrun false hj1 = hrun false hj2.
 Proof.
-  exact (junk_independence_valid_settings consts false 16 hfault sane_consts_consts consts_ok hj1 hj2 hops hops_ok hops_valid).
+  exact (junk_independence_valid_settings consts false false 16 hfault sane_consts_consts consts_ok hj1 hj2 hops hops_ok hops_valid).
+Qed.
+(* the Ruiz preconditioner with the loop-guard quirk of sparse/preconditioner.hpp (sparse_pc = true) *)
+Example history_junk_independent_sparse_pc :
+  run consts false true 16 hfault hj1 None hops = run consts false true 16 hfault hj2 None hops.
+Proof.
+  exact (junk_independence_valid_settings consts false true 16 hfault sane_consts_consts consts_ok hj1 hj2 hops hops_ok hops_valid).
 Qed.
 (* the settings of the refutation witness are not covered *)
 Example bad_settings_not_ok : ~ SettingsOK bad_settings.
